@@ -93,12 +93,10 @@ def validBset (n : Nat) (bset : Array Nat) : Bool :=
   bset.size > 0 && bset.all (· < n) && bset.toList.Nodup
 
 def mkPart (n r nq : Nat) [NeZero n] [NeZero r] [NeZero nq] (bset qset : Array Nat) : Part n r nq :=
-  { bpos := fun l => Fin.ofNat n (bset.getD l.1 0)
-    qpos := fun k => Fin.ofNat n (qset.getD k.1 0)
-    loc := fun i =>
-      match bset.idxOf? i.1 with
-      | some l => .inl (Fin.ofNat r l)
-      | none => .inr (Fin.ofNat nq ((qset.idxOf? i.1).getD 0)) }
+  -- the index functions of Model/NTCbtf (`posFn`, `locFn`; `bset_isPartition` proves they are a partition)
+  { bpos := posFn n bset.toList r
+    qpos := posFn n qset.toList nq
+    loc := locFn bset.toList qset.toList r nq }
 
 /-- all of `cbtf` for every frequency; outputs as rows-of-columns `(frc, a, d, v)` with the number of
 rows of `a d v` (`n`, or `r` when the q-set is empty) -/
@@ -112,7 +110,7 @@ def runCbtf {α : Type} [Inhabited α] [Zero α] [Add α] [Sub α] [Mul α] [Inv
   | n' + 1, r' + 1, 0 =>
     let n := n' + 1
     let r := r' + 1
-    let bpos : Fin r → Fin n := fun l => Fin.ofNat n (bset.getD l.1 0)
+    let bpos : Fin r → Fin n := posFn n bset.toList r
     some (scs.mapIdx fun j sc =>
       let o := cbtfColE (fnOfArr M n) (fnOfArr B n) (fnOfArr K n) bpos sc (fun l => a l.1 j)
       (Array.ofFn o.frc, Array.ofFn o.a, Array.ofFn o.d, Array.ofFn o.v))
@@ -137,7 +135,7 @@ def runAmpvF (n : Nat) (M B K : Array Cx) (bset : Array Nat) (freq : Array Float
   | n' + 1, r' + 1, 0 =>
     let n := n' + 1
     let r := r' + 1
-    let bpos : Fin r → Fin n := fun l => Fin.ofNat n (bset.getD l.1 0)
+    let bpos : Fin r → Fin n := posFn n bset.toList r
     let ms := freq.map fun f =>
       let am := calcAMpvColE (fnOfArr M n) (fnOfArr B n) (fnOfArr K n) bpos (scOfFreq f)
       CMat.ofFn r r fun i k => if h : i < r ∧ k < r then am ⟨i, h.1⟩ ⟨k, h.2⟩ else Cx.zero
